@@ -346,7 +346,7 @@ func isPrefixOfWithEmpties(got, want []string) bool {
 }
 
 func TestProp_Labels(t *testing.T) {
-	pbt.Run(t, pbt.Options{Prop: "C20", Name: "Labels", Quick: 30000, Thorough: 1500000,
+	pbt.Run(t, pbt.Options{Prop: "C20", Name: "Labels", Quick: 30000, Thorough: 300000,
 		Rule: "rapid: manifest children (config + 0-60 layers over a digest pool of 3/10/1000 so digests repeat; URL lists of 0-200 comma-free URLs of 0-200 bytes; OCI/Docker/foreign/encrypted layer media types) x handler {default labels, extra labels over containerd's CRI labels} x reader {FromDefaultLabels, the composed reader of service.NewFileSystem} x label mutation (drop / corrupt up to 3 keys); " +
 			"oracle: labels.Validate on every written label; round trip (ref, digest, URL prefix, neighbours = prefix of following layers minus the target digest in manifest order, each with URLs of a layer of that digest, complete when the list fits 4096 bytes, prefetch size); mutated mandatory labels must be rejected. " +
 			"non-trivial = a label was truncated at the size limit, or digests repeat, or the label set was mutated",
